@@ -118,27 +118,59 @@ theorem order_by_returns_a_permutation (order : List OrderItem) (rows : List Row
   sortBy_perm _ rows
 
 /-- … in an order in which no row is greater (by the ORDER BY items, first deciding item wins) than a later
-    one, for every direction, NULLS placement and number of items, -/
-theorem order_by_result_is_sorted (order : List OrderItem) (rows : List Row) :
-    (sortRows order rows).Pairwise (fun a b => cmpRows order a b ≠ .gt) :=
-  sortBy_sorted _ (law_cmpRows order) rows
+    one, for every direction, NULLS placement and number of items — on every answer whose rows the comparator
+    orders consistently (`consistent`: no sort column that is missing in one row and NULL in another; rows of one
+    table and of inner / cross / natural joins always are), -/
+theorem order_by_result_is_sorted (order : List OrderItem) (rows : List Row)
+    (h : consistent order rows = true) :
+    (sortRows order rows).Pairwise (fun a b => cmpRows order a b ≠ .gt) := by
+  have hs := sortBy_sorted _ (law_cmpRowsN order) rows
+  rw [← sortRows_eq_sortBy_cmpRowsN order rows h] at hs
+  unfold Sorted at hs
+  have hmem : ∀ x, x ∈ sortRows order rows → x ∈ rows := fun x hx => (sortBy_perm _ rows).mem_iff.mp hx
+  refine List.Pairwise.imp_of_mem ?_ hs
+  intro a b ha hb hab
+  rw [cmpRows_eq_cmpRowsN order rows h a b (hmem a ha) (hmem b hb)]
+  exact hab
+
+example : consistent [{ col := 0, desc := true, nulls := some true }]
+    [⟨0, [(0, some 2)]⟩, ⟨1, [(0, none)]⟩, ⟨2, [(0, some 1)]⟩] = true := by decide
 
 /-- … and rows that tie on every item keep the order the engine returned them in (the sort is stable), which
     makes the ordered list — and so every LIMIT / OFFSET window of it — a function of the statement and the
     engine's answer. -/
-theorem order_by_keeps_ties_in_engine_order (order : List OrderItem) (rows : List Row) (r : Row) :
+theorem order_by_keeps_ties_in_engine_order (order : List OrderItem) (rows : List Row)
+    (h : consistent order rows = true) (r : Row) (hr : r ∈ rows) :
     (sortRows order rows).filter (fun x => cmpRows order r x == .eq)
       = rows.filter (fun x => cmpRows order r x == .eq) := by
+  have hmem : ∀ x, x ∈ sortRows order rows → x ∈ rows := fun x hx => (sortBy_perm _ rows).mem_iff.mp hx
+  have e1 : (sortRows order rows).filter (fun x => cmpRows order r x == .eq)
+      = (sortRows order rows).filter (fun x => cmpRowsN order r x == .eq) :=
+    List.filter_congr (fun x hx => by rw [cmpRows_eq_cmpRowsN order rows h r x hr (hmem x hx)])
+  have e2 : rows.filter (fun x => cmpRows order r x == .eq) = rows.filter (fun x => cmpRowsN order r x == .eq) :=
+    List.filter_congr (fun x hx => by rw [cmpRows_eq_cmpRowsN order rows h r x hr hx])
+  rw [e1, e2, sortRows_eq_sortBy_cmpRowsN order rows h]
   apply sortBy_filter
   intro a b ha hb
-  have ha' : cmpRows order r a = .eq := by simpa using ha
-  have hb' : cmpRows order r b = .eq := by simpa using hb
-  have L := law_cmpRows order
+  have ha' : cmpRowsN order r a = .eq := by simpa using ha
+  have hb' : cmpRowsN order r b = .eq := by simpa using hb
+  have L := law_cmpRowsN order
   rw [← L.eqCongr r a b ha', hb']; simp
 
-/-- The comparator `sort_rows` hands to `sort_by` is a total preorder (what `sort_by` requires). -/
-theorem order_by_comparator_is_a_total_preorder (order : List OrderItem) : Law (cmpRows order) :=
-  law_cmpRows order
+/-- On such rows the closure `sort_rows` hands to `sort_by` is a total preorder (what `sort_by` requires): it is
+    the lawful comparator of the normalised keys. -/
+theorem order_by_comparator_is_a_total_preorder_on_consistent_rows (order : List OrderItem) (rows : List Row)
+    (h : consistent order rows = true) :
+    Law (cmpRowsN order) ∧ ∀ a ∈ rows, ∀ b ∈ rows, cmpRows order a b = cmpRowsN order a b :=
+  ⟨law_cmpRowsN order, fun a ha b hb => cmpRows_eq_cmpRowsN order rows h a b ha hb⟩
+
+/-- The code as it is (candidate finding, reported as an observation; on the real code a 24-row LEFT JOIN makes
+    `sort_by` panic): a sort column that is missing in one row (outer join, no partner) and NULL in another is
+    compared `Greater` BOTH ways round — the closure is not an order. -/
+theorem order_by_comparator_is_not_an_order_on_outer_join_rows_witness :
+    ∃ (it : OrderItem) (a b : Row), a.get it.col = .absent ∧ b.get it.col = .null
+      ∧ cmpItem it a b = .gt ∧ cmpItem it b a = .gt :=
+  ⟨{ col := 0, desc := false, nulls := none }, ⟨0, []⟩, ⟨1, [(0, none)]⟩, by decide⟩
 
 /-- Without ORDER BY the rows stay in the engine's order. -/
 theorem no_order_by_keeps_engine_order (s : Sel) (base : List Row) (h : s.order = []) :
@@ -147,7 +179,7 @@ theorem no_order_by_keeps_engine_order (s : Sel) (base : List Row) (h : s.order 
 
 /-- One item, both values present: ASC puts the smaller value first, DESC the greater. -/
 theorem order_by_direction (it : OrderItem) (a b : Row) (x y : Int)
-    (ha : a.get it.col = some x) (hb : b.get it.col = some y) :
+    (ha : a.get it.col = .val x) (hb : b.get it.col = .val y) :
     cmpItem it a b = if it.desc then cmpInt y x else cmpInt x y := by
   unfold cmpItem
   rw [ha, hb]
@@ -156,35 +188,38 @@ theorem order_by_direction (it : OrderItem) (a b : Row) (x y : Int)
   · rfl
   · simp only [if_true]; exact (law_cmpInt.swap x y).symm
 
-example : (⟨0, [(0, some 3)]⟩ : Row).get 0 = some 3 := by decide
+example : (⟨0, [(0, some 3)]⟩ : Row).get 0 = .val 3 := by decide
 
 /-- ORDER BY agrees with what the clause says (`cmpItemSpec`: the direction orders the values, NULLS FIRST / LAST
     places the NULLs; default NULLS LAST under ASC and NULLS FIRST under DESC) for every item that is ascending
     or has no NULLS clause. -/
 theorem order_by_item_agrees_with_its_meaning (it : OrderItem) (h : it.desc = false ∨ it.nulls = none)
-    (a b : Row) : cmpItem it a b = cmpItemSpec it a b := by
+    (a b : Row) (hc : (a.get it.col).clash (b.get it.col) = false) : cmpItem it a b = cmpItemSpec it a b := by
   unfold cmpItem cmpItemSpec
   rcases h with h | h
   · rw [h]
-    cases a.get it.col <;> cases b.get it.col <;> cases it.nulls <;> simp [cmpNulls]
+    cases ha : a.get it.col <;> cases hb : b.get it.col <;> cases it.nulls <;>
+      simp [cmpNulls, ha, hb, Cell.clash] at hc ⊢
   · rw [h]
-    cases hd : it.desc <;> cases a.get it.col <;> cases b.get it.col <;> simp [cmpNulls, Ordering.swap]
+    cases hd : it.desc <;> cases ha : a.get it.col <;> cases hb : b.get it.col <;>
+      simp [cmpNulls, Ordering.swap, ha, hb, Cell.clash] at hc ⊢
 
-example : ({ col := 0, desc := true, nulls := none } : OrderItem).desc = false
-    ∨ ({ col := 0, desc := true, nulls := none } : OrderItem).nulls = none := by decide
+example : (({ col := 0, desc := true, nulls := none } : OrderItem).desc = false
+    ∨ ({ col := 0, desc := true, nulls := none } : OrderItem).nulls = none)
+    ∧ ((⟨0, [(0, none)]⟩ : Row).get 0).clash ((⟨1, [(0, some 4)]⟩ : Row).get 0) = false := by decide
 
 /-- The code as it is (candidate finding, reported as an observation): under DESC the whole comparison is
     reversed, the placement of NULLs included, so `DESC NULLS FIRST` puts the NULLs LAST. -/
 theorem desc_nulls_first_puts_nulls_last_witness :
-    ∃ (it : OrderItem) (a b : Row), it.desc = true ∧ it.nulls = some true ∧ a.get it.col = none
-      ∧ b.get it.col ≠ none ∧ cmpItemSpec it a b = .lt ∧ sortRows [it] [a, b] = [b, a] :=
+    ∃ (it : OrderItem) (a b : Row), it.desc = true ∧ it.nulls = some true ∧ a.get it.col = .null
+      ∧ b.get it.col = .val 5 ∧ cmpItemSpec it a b = .lt ∧ sortRows [it] [a, b] = [b, a] :=
   ⟨{ col := 0, desc := true, nulls := some true }, ⟨0, [(0, none)]⟩, ⟨1, [(0, some 5)]⟩, by decide⟩
 
 /-- The code as it is (candidate finding, reported as an observation): the projection is applied by the engine
     call, before the sort; a sort column that is not in the select list is missing from every row, every
     comparison answers `Equal` and the rows stay in engine order. -/
 theorem order_by_column_outside_the_select_list_does_not_sort (it : OrderItem) (rows : List Row)
-    (h : ∀ r ∈ rows, r.get it.col = none) : sortRows [it] rows = rows := by
+    (h : ∀ r ∈ rows, r.get it.col = .absent) : sortRows [it] rows = rows := by
   unfold sortRows
   induction rows with
   | nil => rfl
@@ -203,7 +238,7 @@ theorem order_by_column_outside_the_select_list_does_not_sort (it : OrderItem) (
         cases it.desc <;> rfl
       rw [this]; simp
 
-example : ∀ r ∈ [(⟨0, [(1, some 2)]⟩ : Row), ⟨1, [(1, some 1)]⟩], r.get 0 = none := by decide
+example : ∀ r ∈ [(⟨0, [(1, some 2)]⟩ : Row), ⟨1, [(1, some 1)]⟩], r.get 0 = .absent := by decide
 
 /-! ### statement forms that never reach the clauses -/
 
